@@ -4,7 +4,7 @@ package life
 type PeerSpec struct {
 	Kind  string `json:"kind"`  // "client" (gortsplib Client) | "raw" (hand-written RTSP over a TCP socket)
 	Mode  string `json:"mode"`  // "play" | "record"   (client);  raw: "silent" | "partial" | "garbage" | "stall"
-	Proto string `json:"proto"` // "udp" | "tcp" | "mcast" (UDP multicast, play only)
+	Proto string `json:"proto"` // "udp" | "tcp" | "mcast" (UDP multicast, play only) | "auto" (client: Protocol = nil, UDP first with automatic switch to TCP)
 	Park  int    `json:"park"`  // protocol step after which this peer waits for the Close (see steps)
 }
 
@@ -42,36 +42,40 @@ type Spec struct {
 	SlowCbUs     int        `json:"slow_cb_us"`    // packet callbacks take this long (a slow handler keeps the delivering goroutine busy)
 	Procs        int        `json:"procs"`         // GOMAXPROCS
 	WriteTimeout int        `json:"write_timeout_ms"`
-	ServerKind   string     `json:"server_kind,omitempty"` // target client: "real" | "mute" | "stall" | "script"
-	BurstStep    int        `json:"burst_step,omitempty"`  // script server: the burst goes out with the answer to the request of this number
-	Burst        []string   `json:"burst,omitempty"`       // script server: req-options | req-setparam | req-getparam | frame | frame-bad-channel | response-stray | garbage
-	BurstFirst   bool       `json:"burst_first,omitempty"` // the burst precedes the answer in the write
+	ServerKind   string     `json:"server_kind,omitempty"`  // target client: "real" | "mute" | "stall" | "script"
+	BurstStep    int        `json:"burst_step,omitempty"`   // script server: the burst goes out with the answer to the request of this number
+	Burst        []string   `json:"burst,omitempty"`        // script server: req-options | req-setparam | req-getparam | frame | frame-bad-channel | response-stray | garbage
+	BurstFirst   bool       `json:"burst_first,omitempty"`  // the burst precedes the answer in the write
+	Blackhole    bool       `json:"blackhole,omitempty"`    // client: inbound UDP datagrams are dropped at its packet conns (automatic switch to TCP after InitialUDPReadTimeout)
+	ScriptSetup  string     `json:"script_setup,omitempty"` // script server: answer to a UDP SETUP: "461" | "tcp-answer" | "udp-silent" (UDP accepted, nothing ever sent)
+	Redirect     bool       `json:"redirect,omitempty"`     // script server: the first DESCRIBE is answered with 302 to another path
 	Seed         uint64     `json:"seed"`
 }
 
 // Outcome is what the child reports for one scenario.
 type Outcome struct {
-	Spec       Spec           `json:"spec"`
-	Events     []string       `json:"events"`
-	Counts     map[string]int `json:"counts"`
-	Dropped    int            `json:"dropped_packets"`
-	CloseMs    float64        `json:"close_ms"`
-	BoundMs    float64        `json:"bound_ms"`
-	Persistent bool           `json:"persistent_leak,omitempty"` // what is left at the end is still there after 8 more seconds
-	Hang       bool           `json:"hang"`
-	HangDump   string         `json:"hang_dump,omitempty"`
-	BlockedAt  []string       `json:"blocked_at_close_return"` // goroutines of the closed object's side parked at a blocking operation at the instant Close returned
-	LeftAfter  []string       `json:"left_after_close"`        // goroutines of the closed object's side after Close (+grace)
-	SockAfter  []string       `json:"sockets_after_close"`
-	LeftFinal  []string       `json:"left_final"`            // library goroutines after everything was closed
-	FdFinal    []string       `json:"fd_final"`              // descriptors that were not there before the scenario
-	StreamLate []string       `json:"stream_late,omitempty"` // target stream: reader sessions not closed in time
-	StreamLeft []string       `json:"stream_left,omitempty"` // target stream: multicast listener goroutines left after ServerStream.Close
-	PeerFlow   []string       `json:"peer_flow,omitempty"`   // a reader that did not get packets after a redundant PLAY
-	Panic      string         `json:"panic,omitempty"`
-	SetupErr   string         `json:"setup_err,omitempty"` // the scenario could not be set up (not a verdict)
-	Reached    int            `json:"reached"`             // last protocol step peer 0 completed before the Close
-	Notes      []string       `json:"notes,omitempty"`
+	Spec        Spec           `json:"spec"`
+	Events      []string       `json:"events"`
+	Counts      map[string]int `json:"counts"`
+	Dropped     int            `json:"dropped_packets"`
+	CloseMs     float64        `json:"close_ms"`
+	BoundMs     float64        `json:"bound_ms"`
+	Persistent  bool           `json:"persistent_leak,omitempty"` // what is left at the end is still there after 8 more seconds
+	Hang        bool           `json:"hang"`
+	HangDump    string         `json:"hang_dump,omitempty"`
+	BlockedAt   []string       `json:"blocked_at_close_return"` // goroutines of the closed object's side parked at a blocking operation at the instant Close returned
+	LeftAfter   []string       `json:"left_after_close"`        // goroutines of the closed object's side after Close (+grace)
+	SockAfter   []string       `json:"sockets_after_close"`
+	LeftFinal   []string       `json:"left_final"`             // library goroutines after everything was closed
+	FdFinal     []string       `json:"fd_final"`               // descriptors that were not there before the scenario
+	StreamLate  []string       `json:"stream_late,omitempty"`  // target stream: reader sessions not closed in time
+	StreamLeft  []string       `json:"stream_left,omitempty"`  // target stream: multicast listener goroutines left after ServerStream.Close
+	PeerFlow    []string       `json:"peer_flow,omitempty"`    // a reader that did not get packets after a redundant PLAY
+	LatePackets []string       `json:"late_packets,omitempty"` // a datagram from a de-registered address reached a callback
+	Panic       string         `json:"panic,omitempty"`
+	SetupErr    string         `json:"setup_err,omitempty"` // the scenario could not be set up (not a verdict)
+	Reached     int            `json:"reached"`             // last protocol step peer 0 completed before the Close
+	Notes       []string       `json:"notes,omitempty"`
 }
 
 // slackMs is the scheduling allowance added to 2*WriteTimeout in the Close bound.  The property says
